@@ -50,7 +50,9 @@ def values(desc, cap: int = 24, small: bool = False) -> list:
     if k in ("farr", "varr"):
         e, n = desc[1], desc[2]
         if e[0] == "utf8":
-            cands = ["", "a", "é", "aé", "€", "z" * n, b"ab"[:n]]
+            # texts that are NOT in a Unicode normal form are values like any other: decomposed e + acute, ANGSTROM SIGN (its NFC form
+            # is shorter), DEVANAGARI QA (its NFC form is longer), and the same as bytes
+            cands = ["", "a", "é", "aé", "€", "z" * n, b"ab"[:n], "e\u0301", "\u212b", "\u0958", "e\u0301".encode()]
             if n >= 8:  # long texts: multi-byte characters at the very end / throughout
                 cands += ["a" * (n - 2) + "é", "a" * (n - 3) + "€", "é" * (n // 2), "a" * (n - 4) + "\U0001f600", "b" * (n - 1)]
             return [c for c in cands if len(c.encode("utf-8") if isinstance(c, str) else c) <= n and (k == "varr")][:cap]
